@@ -423,7 +423,7 @@ def check_pack(ctx, res: Result, prop_id: str):
             if imp[0] == "symbol" and imp[1] in ctx.prog.modules and imp[1].split(".")[-1].startswith("_") and ctx.prog.modules[imp[1]] not in mods:
                 mods.append(ctx.prog.modules[imp[1]])
     fis = [fi for fi in ctx.prog.functions.values() if fi.module in mods]
-    lints = (("G-STALE", check_stale_in_loop), ("G-REUSE", check_iterator_reuse), ("N-FANCYAUG", check_fancy_augassign), ("G-GROUPBY", check_groupby_sorted), ("E-SHARED", check_shared_literals), ("G-LIVEITER", check_mutation_while_iterating), ("E-DEFAULTARG", check_mutable_defaults), ("G-KEYPROJ", check_key_projection), ("K-OWNER", check_id_owner), ("G-COUNTERADD", check_counter_arith), ("G-ZEROBUCKET", check_zero_buckets), ("G-LENVALID", check_len_validated_cache), ("G-SHAPEGUESS", check_layout_guess), ("K-LABELTYPE", check_label_type_dispatch), ("G-ZIPALIGN", check_zip_alignment), ("G-TRUTHY0", check_truthy_index), ("G-PYTRAP", check_python_traps), ("G-LOSSYKEY", check_lossy_keys), ("G-TRISTATE", check_tristate_flag), ("N-TRACEMUL", check_trace_of_elementwise), ("G-REUSEDREC", check_reused_record))
+    lints = (("G-STALE", check_stale_in_loop), ("G-REUSE", check_iterator_reuse), ("N-FANCYAUG", check_fancy_augassign), ("G-GROUPBY", check_groupby_sorted), ("E-SHARED", check_shared_literals), ("G-LIVEITER", check_mutation_while_iterating), ("E-DEFAULTARG", check_mutable_defaults), ("G-KEYPROJ", check_key_projection), ("K-OWNER", check_id_owner), ("G-COUNTERADD", check_counter_arith), ("G-ZEROBUCKET", check_zero_buckets), ("G-LENVALID", check_len_validated_cache), ("G-SHAPEGUESS", check_layout_guess), ("K-LABELTYPE", check_label_type_dispatch), ("G-ZIPALIGN", check_zip_alignment), ("G-TRUTHY0", check_truthy_index), ("G-PYTRAP", check_python_traps), ("G-LOSSYKEY", check_lossy_keys), ("G-TRISTATE", check_tristate_flag), ("N-TRACEMUL", check_trace_of_elementwise), ("G-REUSEDREC", check_reused_record), ("G-LOOPLEAK", check_loop_leak), ("G-ACCRESET", check_accumulator_reset), ("G-ARGSWAP", check_swapped_arguments), ("K-SORTPAIR", check_sorted_pair))
     seen_keys = {(o.rule, o.func, o.stmt) for o in res.obs}
     for rule, fn in lints:
         n_f = n_v = 0
@@ -1244,6 +1244,226 @@ def check_trace_of_elementwise(ctx, res: Result, dotted, rule="N-TRACEMUL"):
     if n == 0:
         res.ok(rule, f, "no trace of an elementwise product", "scan", loc(fi, fi.node))
 
+
+
+def check_loop_leak(ctx, res: Result, dotted, rule="G-LOOPLEAK"):
+    """The statement right after a loop - at the loop's own indentation - is a per-item step (an accumulation `total += w`, a
+    store `table[key] = value`, a mutator call `acc.append(x)`) that reads the loop's variable or a name that is assigned only
+    inside the loop body: it ran for every item once and now runs once, for the LAST item only (a statement that lost one
+    level of indentation).  Loops with `break` are the search idiom (`for x in xs: if p(x): break` / use x) and are left alone,
+    and so is a name that was bound before the loop."""
+    v = ctx.view(dotted)
+    fi = v.fi
+    f = fi.short
+    res.rules.setdefault(rule, "the statement that follows a loop is not a per-item accumulation / store that reads the loop's variable (a step of the loop body that lost one level of indentation runs for the last item only)")
+    n = 0
+    from .canon import _blocks
+
+    MUT = ("append", "add", "update", "extend", "insert", "add_edge", "add_node", "add_edges", "add_nodes", "remove", "discard", "remove_edge", "remove_node", "setdefault", "pop")
+    for blk in _blocks(fi.node):
+        for i, lp in enumerate(blk[:-1]):
+            if not isinstance(lp, ast.For) or lp.orelse:
+                continue
+            if any(isinstance(x, (ast.Break, ast.Return)) for x in ast.walk(lp)):
+                continue
+            nxt = blk[i + 1]
+            step = isinstance(nxt, ast.AugAssign) or (isinstance(nxt, ast.Assign) and all(isinstance(t, ast.Subscript) for t in nxt.targets)) or (isinstance(nxt, ast.Expr) and isinstance(nxt.value, ast.Call) and isinstance(nxt.value.func, ast.Attribute) and nxt.value.func.attr in MUT)
+            if not step:
+                continue
+            bound = {x.id for x in ast.walk(lp.target) if isinstance(x, ast.Name)}
+            for a in ast.walk(lp):
+                if isinstance(a, ast.Assign):
+                    for t in a.targets:
+                        if isinstance(t, ast.Name):
+                            bound.add(t.id)
+                        elif isinstance(t, (ast.Tuple, ast.List)):
+                            bound |= {e.id for e in t.elts if isinstance(e, ast.Name)}
+            # names bound before the loop (or parameters) are not the loop's own
+            pre = {a_.arg for a_ in fi.params} | {a_.arg for a_ in fi.node.args.kwonlyargs}
+            for a in walk_no_nested(fi.node):
+                if isinstance(a, ast.Name) and isinstance(a.ctx, ast.Store) and a.lineno < lp.lineno and not any(a is y for y in ast.walk(lp)):
+                    pre.add(a.id)
+            bound -= pre
+            bound -= {"_"}
+            if not bound:
+                continue
+            # reads of the step, outside comprehensions / lambdas that bind the name themselves
+            own = set()
+            for c in ast.walk(nxt):
+                if isinstance(c, (ast.ListComp, ast.SetComp, ast.DictComp, ast.GeneratorExp)):
+                    own |= {x.id for g_ in c.generators for x in ast.walk(g_.target) if isinstance(x, ast.Name)}
+                if isinstance(c, ast.Lambda):
+                    own |= {a_.arg for a_ in c.args.args}
+            reads = {x.id for x in ast.walk(nxt) if isinstance(x, ast.Name) and isinstance(x.ctx, ast.Load)} - own
+            hit = sorted(reads & bound)
+            if not hit:
+                continue
+            # the accumulated target is not touched inside the loop: nothing else suggests that the loop prepares a final value
+            tgt = nxt.target if isinstance(nxt, ast.AugAssign) else (nxt.targets[0].value if isinstance(nxt, ast.Assign) else nxt.value.func.value)
+            tname = norm(tgt)
+            n += 1
+            res.violation(rule, f, norm(nxt)[:100], hit[0], f"`{norm(nxt)[:60]}` follows the loop `for {norm(lp.target)} in {norm(lp.iter)[:40]}` at the loop's own indentation and reads `{hit[0]}`, which only the loop binds: the step runs once, with the values of the LAST item, instead of once per item (`{tname[:30]}` misses every other item)", loc(fi, nxt))
+    if n == 0:
+        res.ok(rule, f, "no per-item step right after its loop", "scan", loc(fi, fi.node))
+
+
+def check_accumulator_reset(ctx, res: Result, dotted, rule="G-ACCRESET"):
+    """An accumulator (empty list / dict / set / Counter / 0) is (re-)initialised INSIDE the loop that fills it, is not consumed
+    inside that loop, and is read after the loop: what it holds then is what the LAST iteration accumulated - everything the
+    earlier iterations collected was thrown away (an initialisation at the wrong nesting level)."""
+    v = ctx.view(dotted)
+    fi = v.fi
+    f = fi.short
+    res.rules.setdefault(rule, "an accumulator that is read after a loop is not re-initialised inside that loop (every iteration would discard what the earlier ones collected)")
+    n = 0
+
+    def empty(e):
+        if isinstance(e, (ast.List, ast.Set, ast.Tuple)) and not e.elts:
+            return True
+        if isinstance(e, ast.Dict) and not e.keys:
+            return True
+        if isinstance(e, ast.Constant) and e.value in (0, 0.0) and not isinstance(e.value, bool):
+            return True
+        return isinstance(e, ast.Call) and isinstance(e.func, ast.Name) and e.func.id in ("list", "dict", "set", "Counter", "defaultdict") and not (e.args and e.func.id != "defaultdict")
+
+    for lp in [x for x in walk_no_nested(fi.node) if isinstance(x, (ast.For, ast.While))]:
+        for st in lp.body:
+            if not (isinstance(st, ast.Assign) and len(st.targets) == 1 and isinstance(st.targets[0], ast.Name) and empty(st.value)):
+                continue
+            name = st.targets[0].id
+            inside = [x for x in ast.walk(lp)]
+            ins_ids = {id(x) for x in inside}
+            # accumulated inside the loop, after the initialisation
+            acc = []
+            other_loads = []
+            for x in inside:
+                if isinstance(x, ast.AugAssign) and isinstance(x.target, ast.Name) and x.target.id == name:
+                    acc.append(x)
+                elif isinstance(x, ast.AugAssign) and isinstance(x.target, ast.Subscript) and isinstance(x.target.value, ast.Name) and x.target.value.id == name:
+                    acc.append(x)
+                elif isinstance(x, ast.Assign) and any(isinstance(t, ast.Subscript) and isinstance(t.value, ast.Name) and t.value.id == name for t in x.targets):
+                    acc.append(x)
+                elif isinstance(x, ast.Call) and isinstance(x.func, ast.Attribute) and isinstance(x.func.value, ast.Name) and x.func.value.id == name and x.func.attr in ("append", "add", "update", "extend", "setdefault"):
+                    acc.append(x)
+            acc_ids = set()
+            for a in acc:
+                tg = a.target if isinstance(a, ast.AugAssign) else (a.func if isinstance(a, ast.Call) else None)
+                for y in (ast.walk(tg) if tg is not None else [t_ for t in a.targets for t_ in ast.walk(t)]):
+                    acc_ids.add(id(y))
+            for x in inside:
+                if isinstance(x, ast.Name) and x.id == name and isinstance(x.ctx, ast.Load) and id(x) not in acc_ids:
+                    other_loads.append(x)
+            if not acc or other_loads:
+                continue
+            # other stores of the name inside the loop: something else than an accumulator
+            if sum(1 for x in inside if isinstance(x, ast.Name) and x.id == name and isinstance(x.ctx, ast.Store)) != 1:
+                continue
+            after = [x for x in walk_no_nested(fi.node) if isinstance(x, ast.Name) and x.id == name and isinstance(x.ctx, ast.Load) and id(x) not in ins_ids and x.lineno > lp.end_lineno]
+            # an enclosing loop that consumes it per iteration of ITS body is fine: only reads after the OUTERMOST loop that contains
+            # no other initialisation count; keep it simple - the read must not be inside a loop that also contains `lp`
+            after = [x for x in after if not any(any(l2 is y for y in ast.walk(o)) for o in v.enclosing_all(x, (ast.For, ast.While)) for l2 in [lp])]
+            if not after:
+                continue
+            rebound = any(isinstance(x, ast.Name) and x.id == name and isinstance(x.ctx, ast.Store) and id(x) not in ins_ids and lp.end_lineno < x.lineno <= after[0].lineno for x in walk_no_nested(fi.node))
+            if rebound:
+                continue
+            n += 1
+            res.violation(rule, f, norm(st), name, f"`{norm(st)}` sits inside the loop at line {lp.lineno} that fills `{name}` (`{norm(acc[0])[:50]}`), nothing in the loop consumes it, and it is read after the loop (line {after[0].lineno}): every iteration starts from an empty `{name}`, so only the last iteration's items are left", loc(fi, st))
+    if n == 0:
+        res.ok(rule, f, "no accumulator re-initialised inside the loop that fills it", "scan", loc(fi, fi.node))
+
+
+def check_swapped_arguments(ctx, res: Result, dotted, rule="G-ARGSWAP"):
+    """A positional call of a repository function hands over two plain names crosswise: argument i is spelled like parameter j and
+    argument j like parameter i (`self._absorb_C(fixed_w, fixed_u)` for `def _absorb_C(self, fixed_u, fixed_w)`).  The caller's
+    names say which value is which; the callee will take each for the other."""
+    v = ctx.view(dotted)
+    fi = v.fi
+    f = fi.short
+    res.rules.setdefault(rule, "two positional arguments that carry the names of two of the callee's parameters are not handed over crosswise (each in the other's position)")
+    n = 0
+    for c in walk_no_nested(fi.node):
+        if not isinstance(c, ast.Call) or len(c.args) < 2 or any(isinstance(a, ast.Starred) for a in c.args):
+            continue
+        for callee in ctx.callees(fi, c):
+            ps = [a.arg for a in callee.params]
+            if callee.cls is not None and ps and ps[0] in ("self", "cls") and isinstance(c.func, ast.Attribute):
+                ps = ps[1:]
+            names = [a.id if isinstance(a, ast.Name) else None for a in c.args]
+            hit = None
+            for i, ai in enumerate(names):
+                for j in range(i + 1, len(names)):
+                    aj = names[j]
+                    if ai and aj and ai != aj and j < len(ps) and ps[i] == aj and ps[j] == ai:
+                        hit = (i, j)
+            if hit:
+                i, j = hit
+                n += 1
+                res.violation(rule, f, norm(c)[:100], f"{ps[i]}<->{ps[j]}", f"`{norm(c)[:60]}` hands `{names[i]}` to the parameter `{ps[i]}` and `{names[j]}` to the parameter `{ps[j]}` of {callee.short}: the two values are taken for each other", loc(fi, c))
+                break
+    if n == 0:
+        res.ok(rule, f, "no crosswise positional arguments", "scan", loc(fi, fi.node))
+
+
+def check_sorted_pair(ctx, res: Result, dotted, rule="K-SORTPAIR"):
+    """`sorted(e)` / `tuple(sorted(e))` where `e` is a directed hyperedge - a (source nodes, target nodes) pair - sorts the two SIDES
+    against each other: whenever the target tuple sorts before the source tuple the roles are swapped.  Decided from the kind of the
+    sorted value, in the function itself and in the repository helpers it hands a list of such pairs to (a helper written for
+    undirected hyperedges that canonicalises each item)."""
+    from .kinds import Lst, Seq, Tup, elem_of, strip_none
+
+    v = ctx.view(dotted)
+    fi = v.fi
+    f = fi.short
+    res.rules.setdefault(rule, "a directed hyperedge (source nodes, target nodes) is never passed through sorted(): sorting the pair compares its two sides and can swap them")
+    n = 0
+
+    def is_pair(k):
+        k = strip_none(k)
+        return isinstance(k, Tup) and len(k.items) == 2 and all(isinstance(strip_none(i), Seq) for i in k.items)
+
+    def sorts_of(node):
+        return [c for c in ast.walk(node) if isinstance(c, ast.Call) and isinstance(c.func, ast.Name) and c.func.id == "sorted" and len(c.args) == 1 and not c.keywords]
+
+    for c in sorts_of(fi.node):
+        try:
+            k = ctx.interp.kind_at(fi, c.args[0])
+        except Exception:
+            continue
+        if is_pair(k):
+            n += 1
+            res.violation(rule, f, norm(c)[:80], "direct", f"`{norm(c)[:50]}` sorts a (source, target) pair ({k!r}): the two node tuples are compared with each other, and a hyperedge whose target sorts before its source comes out with the roles swapped", loc(fi, c))
+    for cf in ctx.interp.callfacts:
+        if cf.caller.qualname != fi.qualname or cf.callee.module.relpath != fi.module.relpath:
+            continue
+        for pname, k in cf.bound.items():
+            k = strip_none(k)
+            if not (isinstance(k, Lst) and is_pair(elem_of(k))):
+                continue
+            # loops of the callee over that parameter (directly or through enumerate), and sorted(<loop variable>) inside
+            for lp in [x for x in ast.walk(cf.callee.node) if isinstance(x, (ast.For, ast.comprehension))]:
+                it = lp.iter
+                tgt = lp.target
+                if isinstance(it, ast.Call) and isinstance(it.func, ast.Name) and it.func.id == "enumerate" and it.args and isinstance(tgt, ast.Tuple) and len(tgt.elts) == 2:
+                    it, tgt = it.args[0], tgt.elts[1]
+                if not (isinstance(it, ast.Name) and it.id == pname and isinstance(tgt, ast.Name)):
+                    continue
+                scope = lp if isinstance(lp, ast.For) else cf.callee.node
+                cview = ctx.view(cf.callee)
+                for c in sorts_of(scope):
+                    if isinstance(c.args[0], ast.Name) and c.args[0].id == tgt.id:
+                        # `if canonical: e = tuple(sorted(e))` with `canonical=False` at this call: a test over another parameter of
+                        # the helper decides whether the sort runs at all
+                        pnames = {a_.arg for a_ in cf.callee.params} - {pname}
+                        guards = [i_ for i_ in cview.enclosing_all(c, (ast.If, ast.IfExp)) if any(isinstance(x, ast.Name) and x.id in pnames for x in ast.walk(i_.test))]
+                        if guards:
+                            res.unknown(rule, f, norm(cf.node)[:80], f"{cf.callee.short}:{pname}", f"{cf.callee.short} sorts the items of `{pname}` only under `{norm(guards[0].test)[:40]}`, a test of another argument of this call", loc(fi, cf.node))
+                            break
+                        n += 1
+                        res.violation(rule, f, norm(cf.node)[:80], f"{cf.callee.short}:{pname}", f"{cf.callee.short} canonicalises every item of `{pname}` with `{norm(c)[:40]}`, and this call hands it (source, target) pairs ({k!r}): the pair itself is sorted, so a hyperedge whose target tuple sorts before its source tuple is recorded with the roles swapped", loc(fi, cf.node))
+                        break
+    if n == 0:
+        res.ok(rule, f, "no directed pair passed through sorted()", "scan", loc(fi, fi.node))
 
 def check_reused_record(ctx, res: Result, dotted, rule="G-REUSEDREC"):
     """One mutable record (a dict created once) is filled item after item with `.update(...)` / element stores and handed to a
